@@ -7,6 +7,7 @@
 From Coq Require Import List ZArith Bool.
 Import ListNotations.
 From V Require Import Model.SyncRingConc Proofs.SyncRingConc Proofs.SyncRingConcTop Proofs.SyncRingSeqState Proofs.SyncRingShort Proofs.SyncRingPopProgress Proofs.SyncRingAba Proofs.SyncRingExcuse.
+From V Require Import Lib.Enc Run.C01 Proofs.SyncRingJudgeFinal.
 Local Open Scope Z_scope.
 
 (* the freshly initialised ring of capacity 2^k satisfies the invariant, for every k in [1,31] and thread count *)
@@ -144,3 +145,28 @@ Theorem c01_pop_cas_fails_overtaken : forall k c i pos seq H0,
   Inv k c -> nth_error (ths c) i = Some (PoCas pos seq H0) -> u32 (hd (sh c)) <> pos -> H0 < hd (sh c).
 Proof. exact pop_cas_fails_overtaken. Qed.
 Print Assumptions c01_pop_cas_fails_overtaken.
+
+(* Refinement between the proved step model and the executable specification that the check applies to the real
+   implementation's histories: the history judge (Run.C01.judge, sub 2: linearisation points replayed against a bounded
+   FIFO, every result checked, every false result excused, observers exact when alone, final content) accepts the output
+   of every run of the model (Run.C01.run_case, sub 0, incl. the PushWait / PopWait loops run on top of the step model).
+   wf_case (Run/C01.v) = wf_syntax && (all_bounded || finishes):
+     wf_syntax: 1 <= k <= 31, counter base >= 0, 0 <= fill <= 2^k, documented operation codes only, schedule entries >= 0
+                (the negative "warp" entries replaying known finding F10 are excluded), at most 2^32 schedule entries
+                including the completion tail;
+     all_bounded: no PushWait(v,-1) / PopWait(-1), at most 4 timed retries per call -- then every operation returns within
+                the schedule (c01_bounded_cases_finish) and the premise is purely syntactic;
+     finishes:  for the unbounded loops, "every started operation has returned at the end of the schedule", evaluated on the
+                model's run (a call that never returns has no result, and the judge rejects such a history). *)
+Theorem c01_judge_accepts_model : forall args, wf_case args = true -> judge (put_list args ++ put_list (run_case args)) = [1].
+Proof. exact judge_accepts_model. Qed.
+Print Assumptions c01_judge_accepts_model.
+
+Theorem c01_bounded_cases_finish : forall args, wf_syntax args = true -> all_bounded args = true -> finishes args = true.
+Proof. exact bounded_cases_finish. Qed.
+Print Assumptions c01_bounded_cases_finish.
+
+Theorem c01_judge_accepts_model_bounded : forall args,
+  wf_syntax args = true -> all_bounded args = true -> judge (put_list args ++ put_list (run_case args)) = [1].
+Proof. exact judge_accepts_model_bounded. Qed.
+Print Assumptions c01_judge_accepts_model_bounded.
